@@ -8,6 +8,7 @@ import WebpVerif.Lemmas.EncHuffCodes
 import WebpVerif.Lemmas.PrefixFree
 import WebpVerif.Lemmas.HuffShort
 import WebpVerif.Lemmas.ColorIndex
+import WebpVerif.Lemmas.CodeRead
 
 /-!
 # C01 — VP8L decoding matches the lossless specification for every valid stream
@@ -332,5 +333,33 @@ theorem color_indexing_direct (pal : Array Nat) (w h : Nat) (d : Array Nat) (hts
 example : (List.range 10).map (fun i => (CIdx.apply #[7, 8, 9] 3 5 2 #[0x1b00, 0x0200, 0x2400, 0x0100, 99, 99, 99, 99, 99, 99])[i]!) =
     (List.range 10).map (fun i => specIndexPixel #[7, 8, 9] 5 #[0x1b00, 0x0200, 0x2400, 0x0100, 99, 99, 99, 99, 99, 99] (i % 5) (i / 5)) := by
   decide +kernel
+
+
+/-! ### reading a prefix code from the stream -/
+
+/-- **`read_huffman_code` = the specification's `ReadCode`.**  `CodeRead.readCode` is the model of
+    `LosslessDecoder::read_huffman_code` and `read_huffman_code_lengths` (simple codes with one or
+    two symbols in either order, the code-length code in `CODE_LENGTH_CODE_ORDER`, `max_symbol`,
+    the symbol loop over a preallocated vector with the repeat codes 16 / 17 / 18, the final
+    `build_implicit`), tied to the real functions through hook 910fc7a on whole, truncated and
+    bit-flipped serialisations.  For EVERY alphabet size 2..5000 and EVERY bit string: the model
+    rejects exactly when the specification rejects; otherwise both leave the same rest of the
+    stream, and the `HuffmanTree` the model returns (single node, two-node or table + secondary
+    trees) decodes every bit string exactly like the canonical code of the lengths the
+    specification read. -/
+theorem read_code_is_spec (alphabet : Nat) (h2 : 2 ≤ alphabet) (h5000 : alphabet ≤ 5000) (bits : List Nat)
+    (hb : ∀ b ∈ bits, b < 2) :
+    match CodeRead.readCode alphabet bits, Prefix.readCodeL alphabet bits with
+    | none, none => True
+    | some (t, r), some (lens, r') =>
+      r = r' ∧ ∀ bs : List Nat, (∀ b ∈ bs, b < 2) → Huff.readSym t bs = Prefix.decodeSymbol lens bs
+    | _, _ => False :=
+  CodeReadProof.read_code_is_spec alphabet h2 h5000 bits hb
+
+-- non-vacuity: a two-symbol simple code (symbols 1 and 0, written in descending order) followed by
+-- one more bit is accepted by both, and the bit is left in the stream
+example : (CodeRead.readCode 40 [1, 1, 0, 1, 0, 0, 0, 0, 0, 0, 0, 0, 1]).map (·.2) = some [1] ∧
+    (Prefix.readCodeL 40 [1, 1, 0, 1, 0, 0, 0, 0, 0, 0, 0, 0, 1]).map (·.2) = some [1] := by
+  decide
 
 end C01
